@@ -48,25 +48,29 @@ CHECKS = {
                 "0/1/63/64/16383/16384/2^30-1/2^30/2^62-1; netcode packets of every kind x 15 sequence values x payload lengths; tokens with "
                 "1..32 IPv4/IPv6 addresses through write/read and seal/open; decode-reencode-decode on valid, truncated, byte-replaced and random "
                 "strings and on live session datagrams; C16_AckSet: the ack packet of every flush equals verif_pending_acks."),
-    "C20": {"category": "exploration",
-            "text": "The real NetcodeServerTransport / NetcodeClientTransport over loopback UDP behind a harness-owned relay that drops, "
-                    "duplicates, holds, re-injects (replays) and bit-corrupts datagrams per schedule; 2-4 clients, staggered joins, application / "
-                    "client / transport initiated disconnects, cut-off clients; clauses C20_LockStep (renet ids = netcode ids = client_addr map "
-                    "after every server update), C20_EventsOnce, C20_BothSides, C20_OnlyTimeouts, C20_Connects, end-to-end E2E_Same / _Ordered / "
-                    "_Once / _Live. No TLA+ model of the transport glue yet: level exploration (observer in TLA+, traces validated by TLC).",
-            "note": "Trusted: TLC, spec/TransportObs.tla, loopback UDP (synchronous delivery, bounded poll otherwise); time is virtual (duration argument).",
-            "technique": "seeded relay fault schedules on the real UDP stack + TLC trace validation against the TLA+ observer"},
+    "C20": {"category": "model_checking",
+            "text": "MC_Transport.tla models the renet_netcode glue (server update: process datagrams -> add/remove_connection, update_client, push "
+                    "renet disconnections down; client update; per step, client and direction the relay passes or drops what is queued; up to two "
+                    "application / client / transport initiated disconnects) with C20_LockStep, C20_EventsOnce and 'nothing disconnects unless "
+                    "asked' as invariants over every interleaving of 13 steps; sampled behaviours are replayed on the REAL "
+                    "NetcodeServerTransport / NetcodeClientTransport over loopback UDP behind the harness relay, followed by good rounds; plus "
+                    "seeded relay schedules (drop / duplicate / hold / late + replayed / bit-corrupted datagrams, 2-4 clients, staggered joins, "
+                    "churn, cut-off clients); clauses C20_LockStep (renet ids = netcode ids = client_addr map after every server update), "
+                    "_EventsOnce, _BothSides, _OnlyTimeouts, _Connects, end-to-end E2E_Same / _Ordered / _Once / _Live.",
+            "note": "Trusted: TLC, spec/TransportObs.tla, loopback UDP (synchronous delivery, bounded poll otherwise); time is virtual (duration "
+                    "argument). The glue model abstracts both layers to per-id states and has no time-outs; no strict pass for it.",
+            "technique": "TLA+/TLC model checking of the transport glue + exported relay schedules on the real UDP stack + TLC trace validation"},
     "C17": _nc("(a) every sampled bit position and truncation length of sample datagrams of every kind, and all 64 single-bit variants of the "
                "protocol id, must yield no content and no effect (C17_TamperEvident); (b) C17_NonceUnique over every datagram either side "
                "emits (key, sequence -> byte hash) in all model-exported handshake / denial / retry / disconnect histories (Netcode.tla, two "
                "identities racing for one slot) and seeded histories, scope = one connection attempt and the session that follows."),
-    "C18": {"category": "exploration",
-            "text": "Bounded liveness as safety on the real code: lossy handshakes (each packet lost with p 0.3-0.7, duplicated), ticks 50/250/300/1000 "
-                    "ms, timeouts 1/5/none, fail-over from a silent first address, limit raised/lowered at run time, client restart with a fresh "
-                    "token; clauses C18_Connects (within the bound after heal), C18_TimesOut / C18_NoFalseTimeout (observer's own generous and "
-                    "strict clocks), C18_ForgeryDoesNotPostpone (replayed / forged / request-shaped datagrams), C18_PendingExpires. The netcode "
-                    "model has no time-out exploration yet: level exploration.",
-            "note": NC_NOTE, "technique": "seeded fault schedules on the real code + TLC trace validation against the TLA+ observer"},
+    "C18": _nc("Netcode.tla with time: one client whose token has a 1 s timeout; client and server updates of 250 / 1000 ms, honest exchanges, "
+               "replays, in any interleaving of 7 (thorough: 9, 3.9 M states) steps with C18_TimesOut / C18_NoFalseTimeout / "
+               "C18_ForgeryDoesNotPostpone (observer's own generous and strict clocks) as invariants; sampled behaviours replayed on the code; "
+               "bounded liveness on the real code: lossy handshakes (each packet lost with p 0.3-0.7, duplicated), ticks 50/250/300/1000 ms, "
+               "timeouts 1/5/none, fail-over from a silent first address with loss after the switch, limit raised/lowered at run time, restart "
+               "with a fresh token (C18_Connects within the bound after heal), cut-off peers, forged / replayed / request-shaped datagrams "
+               "during silence, C18_PendingExpires."),
     "C19": _nc("Netcode.tla (same configuration as C05) with C19_SameAddr / C19_Smaller / C19_SilentOnInvalid evaluated on every reply to an "
                "address without a completed handshake (lengths from the wire model: request 1078, challenge 333, denied 25); replay; seeded "
                "histories with padded, truncated, replayed, re-addressed requests, full servers and raw datagram shapes."),
